@@ -55,6 +55,10 @@ def gen_plan(seed, tier):
     nb = r.randint(max(2, d), 3 * d + 2)
     p["basis"] = {"$arr": dict(kind="basis", seed=r.randrange(10**6), nb=nb, d=d,
                                unit=r.random() < 0.7)}
+    from ..estimators import gen_layout
+    lay = gen_layout(substream(seed, "c15-layout"))
+    if lay:
+      p["basis"]["$arr"]["layout"] = lay
   else:
     if cls == "SCML":
       p["basis"] = "triplet_diffs"
